@@ -102,7 +102,7 @@ Definition functionsb (p : program) (m : mir) : bool :=
   forallb (fun f => existsb (fun d => String.eqb (dfn_name d) (f_name f) && params_match (dfn_params d) (f_args f)
                                       && mty_eqb (mty_of_ity (dfn_ret d)) (f_ret_ty f)) decls) (m_functions m)
   (* emitted once *)
-  && znodup (map f_id (m_functions m)) && snodup (map f_name (m_functions m))
+  && znodup (map f_id (m_functions m))
   (* its body refers to parameters by those names *)
   && forallb (fun f => forallb (fun e => match e_op e with
                                          | MArgRef fid n => Z.eqb fid (f_id f) && smem n (map a_name (f_args f))
